@@ -224,6 +224,19 @@ func cmdCheck(record bool, args []string) int {
 	if *tier == "thorough" {
 		timeout = 60
 	}
+	// on an overloaded machine (other checks running beside this one) a query that needs 5 s may need 30: stretch the
+	// budget by the load per core (at most 3x), so that a pass does not depend on what else is running
+	if b, err := os.ReadFile("/proc/loadavg"); err == nil {
+		var l1 float64
+		if _, err := fmt.Sscanf(string(b), "%f", &l1); err == nil {
+			if f := l1 / float64(runtime.NumCPU()); f > 1 {
+				if f > 3 {
+					f = 3
+				}
+				timeout = int(float64(timeout) * f)
+			}
+		}
+	}
 	type job struct {
 		o    *Obligation
 		file string
